@@ -83,8 +83,13 @@ def _build_case(rng):
     bank = r.first + rng.randint(0, max(0, nbanks - 6))
     k = rng.random()
     off = r.win_lo if k < 0.2 else rng.randint(r.win_lo, r.win_hi) if k < 0.5 else r.win_hi - rng.randint(0, 12)
+    poke = None
+    if rng.random() < 0.4:
+        # a block of exactly one (or two) bytes ended by the next *=
+        pb = r.first + nbanks - 1 - rng.randint(0, 1)
+        poke = {"a": (pb << 16) | rng.randint(r.win_lo, r.win_hi - 4), "d": rng.choice(["db", "db", "db", "dw", "ascii1"]), "v": rng.randint(0, 255)}
     return {"rom": rom, "org": (bank << 16) | off, "k_a": rng.choice([0, 1, 0xFF, 0x1234, 0x12345, 0xFFFFFF]),
-            "k_b": rng.randint(0, 1 << 26), "items": _items(rng)}
+            "k_b": rng.randint(0, 1 << 26), "items": _items(rng), "poke": poke}
 
 
 def strategy(tier):
@@ -123,7 +128,22 @@ def run_case(case) -> Outcome:
         return Outcome(skip="program would run past the mapped range")
     env = {"k_a": case["k_a"], "k_b": case["k_b"], "lb_bk": org, "lb_fw": lb_fw}
     # ---- source + expected bytes ------------------------------------------------------------------
-    src = [f"k_a := 0x{case['k_a']:x}", f"k_b := 0x{case['k_b']:x}", f"*=0x{org:06x}", "lb_bk:"]
+    src = [f"k_a := 0x{case['k_a']:x}", f"k_b := 0x{case['k_b']:x}"]
+    poke = case.get("poke")
+    poke_writes = []
+    if poke:
+        src.append(f"*=0x{poke['a']:06x}")
+        if poke["d"] == "ascii1":
+            src.append(".ascii '" + "ABCxyz09"[poke["v"] % 8] + "'")
+            pdata = "ABCxyz09"[poke["v"] % 8].encode()
+        elif poke["d"] == "dw":
+            src.append(f".dw 0x{poke['v']:x}")
+            pdata = poke["v"].to_bytes(2, "little")
+        else:
+            src.append(f".db 0x{poke['v']:x}")
+            pdata = bytes([poke["v"]])
+        poke_writes = [(model.physical(poke["a"]) + i, b) for i, b in enumerate(pdata)]
+    src += [f"*=0x{org:06x}", "lb_bk:"]
     expected = bytearray()
     files = {}
     labels = [f"rom:{rom}"]
@@ -189,10 +209,14 @@ def run_case(case) -> Outcome:
         return out.bad(f"rejected:{res['exc'] or 'error'}@{res['frame']}", case,
                        f"valid data program rejected: {res['status']} {res['exc']} {res.failure_text[:300]}\n{source[:600]}")
     got = driver.flatten(res["blocks"])
-    want = [(phys0 + i, b) for i, b in enumerate(expected)]
+    want = poke_writes + [(phys0 + i, b) for i, b in enumerate(expected)]
     if got != want:
         # locate the first difference and attribute it to a directive
         idx = next((i for i, (g, w_) in enumerate(zip(got, want)) if g != w_), min(len(got), len(want)))
+        if idx < len(poke_writes):
+            return out.bad("short-block-before-next-position", case, f"the {len(poke_writes)}-byte block written before the next *= is missing or wrong: got {got[:3]} expected {want[:3]}\n{source[:400]}")
+        idx -= len(poke_writes)
+        got, want = got[len(poke_writes):], want[len(poke_writes):]
         pos, culprit = 0, "tail"
         for i, it in enumerate(items):
             n = _size(it)
